@@ -4,8 +4,8 @@ from gen_util import *
 import pyref
 N = pyref.N; NLE = pyref.N_LE
 
-MODULES = ["WowSrp.Props.C04", "WowSrp.Props.Source.Glue.Srp"]
-THEOREMS = ["C04_constants", "C04_accept_iff", "C04_accept_unchanged", "C04_err_zero", "C04_err_mod", "C04_only_two", "C04_refused_iff_mod_zero", "C04_exactly_two", "C04_server_self", "C04_server_key", "C04_client_key", "C04_client_zero_modulus", "C04_client_self", "C04_source_glue_srp"]
+MODULES = ["WowSrp.Props.C04", "WowSrp.Props.Source.Glue.Srp", "WowSrp.Props.Source.Structural.C04"]
+THEOREMS = ["C04_constants", "C04_accept_iff", "C04_accept_unchanged", "C04_err_zero", "C04_err_mod", "C04_only_two", "C04_refused_iff_mod_zero", "C04_exactly_two", "C04_server_self", "C04_server_key", "C04_client_key", "C04_client_zero_modulus", "C04_client_self", "C04_source_glue_srp", "C04_source_structural_impls"]
 RULE = ("32-byte arrays: members of the 2^32 family 'every byte is 0 or N's byte' (all 32 one-byte and 496 two-byte "
         "members, random members, sweeps of 10^5..5*10^6 members digested on both sides), arrays within 1-3 bytes of 0 and "
         "of N, N+-1, 2N mod 2^256, random; the server's own B steered to any target t through v=(t-7)/3 mod N, b=1; the "
